@@ -67,12 +67,7 @@ impl Drop for Zd {
 
 pub fn reset() {
     unsafe {
-        let p = addr_of_mut!(LEDGER) as *mut u8;
-        let mut i = 0;
-        while i < LN {
-            *p.add(i) = 0;
-            i += 1;
-        }
+        *addr_of_mut!(LEDGER) = [0; LN];
         *addr_of_mut!(BAD) = 0;
         *addr_of_mut!(NEXT) = 0;
         *addr_of_mut!(ZDROPS) = 0;
@@ -96,6 +91,10 @@ pub fn zdrops() -> u8 {
     unsafe { *addr_of_mut!(ZDROPS) }
 }
 
+fn bad() -> u8 {
+    unsafe { *addr_of_mut!(BAD) }
+}
+
 /// how often id was dropped so far (out-of-range ids: 255)
 pub fn count(id: u8) -> u8 {
     unsafe {
@@ -107,58 +106,26 @@ pub fn count(id: u8) -> u8 {
     }
 }
 
+/// `f(i)` for every ledger index, written out (no loop: the harnesses' unwind bound stays that of
+/// the konst loops, which have symbolic trip counts)
+fn scan(f: impl Fn(u8) -> bool) -> bool {
+    f(0) & f(1) & f(2) & f(3) & f(4) & f(5) & f(6) & f(7) & f(8) & f(9) & f(10) & f(11) & f(12) & f(13) & f(14) & f(15)
+}
+
 /// every id created so far was dropped exactly once, nothing else was dropped
 pub fn all_once() -> bool {
-    let n = next_id() as usize;
-    let mut ok = unsafe { *addr_of_mut!(BAD) } == 0 && n <= LN;
-    let mut i = 0;
-    while i < LN {
-        let want = if i < n { 1 } else { 0 };
-        if count(i as u8) != want {
-            ok = false;
-        }
-        i += 1;
-    }
-    ok
+    let n = next_id();
+    bad() == 0 && (n as usize) <= LN && scan(|i| count(i) == (if i < n { 1 } else { 0 }))
 }
 
 /// nothing was dropped more than once so far
 pub fn none_twice() -> bool {
-    let mut ok = unsafe { *addr_of_mut!(BAD) } == 0;
-    let mut i = 0;
-    while i < LN {
-        if count(i as u8) > 1 {
-            ok = false;
-        }
-        i += 1;
-    }
-    ok
-}
-
-/// nothing among ids 0..lim was dropped more than once so far
-pub fn none_twice_upto(lim: usize) -> bool {
-    let mut ok = unsafe { *addr_of_mut!(BAD) } == 0;
-    let mut i = 0;
-    while i < lim && i < LN {
-        if count(i as u8) > 1 {
-            ok = false;
-        }
-        i += 1;
-    }
-    ok
+    bad() == 0 && scan(|i| count(i) <= 1)
 }
 
 /// ids lo..hi have each been dropped exactly `want` times
 pub fn range_count(lo: u8, hi: u8, want: u8) -> bool {
-    let mut ok = true;
-    let mut i = 0u8;
-    while (i as usize) < LN {
-        if i >= lo && i < hi && count(i) != want {
-            ok = false;
-        }
-        i += 1;
-    }
-    ok
+    scan(|i| !(i >= lo && i < hi) || count(i) == want)
 }
 
 /// the value handed over is element `id` with its original payload, still alive
@@ -273,7 +240,7 @@ macro_rules! c15_consumer {
     ($name:ident, $n:literal, |$p:ident| $arr:expr) => {
         harness! {
             /// kind=bounded tier=quick bound="ArrayConsumer<L, N>, N fixed per harness (0,1,2,3), symbolic u32 payloads; symbolic sequence of <= N+2 steps among next / next_back / as_slice / as_mut_slice with a payload overwrite of the first untaken element; then drop (= early drop after any prefix) or assert_is_empty when empty"
-            #[kani::unwind(18)]
+            #[kani::unwind(7)]
             fn $name(s) {
                 const N: usize = $n;
                 reset();
@@ -339,7 +306,7 @@ macro_rules! c15_consumer_clone {
     ($name:ident, $n:literal, $keep:literal, |$p:ident| $arr:expr) => {
         harness! {
             /// kind=bounded tier=quick bound="ArrayConsumer<L, N>, N fixed per harness (1,2,3), symbolic u32 payloads; k <= N takes from symbolic ends, then clone; the original (harnesses *_keep_*) or the clone (harnesses *_drop_*) is dropped at once, the survivor gives up to one more element from a symbolic end and is dropped"
-            #[kani::unwind(18)]
+            #[kani::unwind(7)]
             fn $name(s) {
                 const N: usize = $n;
                 reset();
@@ -410,7 +377,7 @@ c15_consumer_clone! {c15_consumer_clone_drop_n3, 3, false, |p| [fresh(p[0]), fre
 
 harness! {
     /// kind=bounded tier=quick bound="ArrayConsumer::<L, N>::empty(), N in {0,1,2,3}: next, next_back, as_slice, clone, drop"
-    #[kani::unwind(18)]
+    #[kani::unwind(7)]
     fn c15_consumer_empty(s) {
         fn go<S: Src, const N: usize>(s: &mut S) {
             let mut c = ArrayConsumer::<L, N>::empty();
@@ -440,7 +407,7 @@ harness! {
 
 harness! {
     /// kind=bounded tier=quick bound="ArrayConsumer<L, N>, N in {1,2,3}: k < N elements taken from symbolic ends, then assert_is_empty" expect_fail="in konst::array::ArrayConsumer::<.*>::assert_is_empty"
-    #[kani::unwind(18)]
+    #[kani::unwind(7)]
     fn c15_consumer_assert_nonempty_panics(s) {
         fn go<S: Src, const N: usize>(s: &mut S) {
             let arr: [L; N] = core::array::from_fn(|i| fresh(i as u32));
@@ -475,7 +442,7 @@ macro_rules! c15_builder {
     ($name:ident, $n:literal) => {
         harness! {
             /// kind=bounded tier=quick bound="ArrayBuilder<L, N>, N fixed per harness (0,1,2,3), symbolic u32 payloads; symbolic sequence of <= N+2 steps among push (while not full) / as_slice / as_mut_slice with a payload overwrite of the first element; then build (if full) or drop"
-            #[kani::unwind(18)]
+            #[kani::unwind(7)]
             fn $name(s) {
                 const N: usize = $n;
                 reset();
@@ -549,7 +516,7 @@ macro_rules! c15_builder_clone {
     ($name:ident, $n:literal) => {
         harness! {
             /// kind=bounded tier=quick bound="ArrayBuilder<L, N>, N fixed per harness (1,2,3), symbolic u32 payloads; k <= N pushes, then clone; either the clone or the original is dropped at once, the survivor is filled up (symbolically) and then built (if full) or dropped"
-            #[kani::unwind(18)]
+            #[kani::unwind(7)]
             fn $name(s) {
                 const N: usize = $n;
                 reset();
@@ -662,7 +629,7 @@ macro_rules! lclient (
             $s.assume(false);
         }
         chk!($s, is_elem(&$x, k as u8, $rec.pay[k]), "C15.map_.closure_gets_each_element_once_in_order_unchanged");
-        chk!($s, none_twice_upto(8), "C15.map_.nothing_dropped_twice");
+        chk!($s, none_twice(), "C15.map_.nothing_dropped_twice");
         let c = if $mode == M_EXITS { $s.u8() } else { 0 };
         let early_drop = $s.bool();
         if $mode == M_BRK && k == $rec.at {
@@ -726,7 +693,7 @@ macro_rules! c15_map_ok {
     ($name:ident, $n:literal, |$p:ident| $arr:expr) => {
         harness! {
             /// kind=bounded tier=quick bound="map_! over [L; N], N fixed per harness (0,1,2,3), 2 closure forms, symbolic u32 payloads; the closure runs to its end at every call and returns symbolically either its argument or a fresh value after dropping the argument"
-            #[kani::unwind(18)]
+            #[kani::unwind(7)]
             fn $name(s) {
                 const N: usize = $n;
                 reset();
@@ -780,7 +747,7 @@ macro_rules! c15_map_exits {
     ($name:ident, $n:literal, |$p:ident| $arr:expr) => {
         harness! {
             /// kind=bounded tier=quick bound="map_! over [L; N], N fixed per harness (1,2,3), 2 closure forms; every closure call chooses symbolically among value / break-to-outer-label / return (the argument dropped explicitly first or by scope exit)"
-            #[kani::unwind(18)]
+            #[kani::unwind(7)]
             fn $name(s) {
                 const N: usize = $n;
                 reset();
@@ -821,7 +788,7 @@ macro_rules! c15_map_skip {
     ($name:ident, $n:literal, |$p:ident| $arr:expr) => {
         harness! {
             /// kind=bounded tier=quick bound="map_! over [L; N], N fixed per harness (1,2,3), 2 closure forms; one unlabelled break or continue at a symbolic call number < N: ArrayBuilder::build must panic; only the ledger before the panic is observable (no unwinding under Kani)" expect_fail="in konst::array::ArrayBuilder::<.*>::build"
-            #[kani::unwind(18)]
+            #[kani::unwind(7)]
             fn $name(s) {
                 const N: usize = $n;
                 reset();
@@ -903,7 +870,7 @@ macro_rules! take (
 
 harness! {
     /// kind=bounded tier=quick bound="destructure! on structs: braced (all fields, renamed field, `_` field, type annotation, path with leading self::), tuple struct (plain, annotated, `path,` form with generic arguments), generic struct in generic fn; symbolic u32 payloads"
-    #[kani::unwind(18)]
+    #[kani::unwind(7)]
     fn c15_destructure_structs(s) {
         reset();
         let p: [u32; 4] = [s.u32(), s.u32(), s.u32(), s.u32()];
@@ -976,7 +943,7 @@ harness! {
 
 harness! {
     /// kind=bounded tier=quick bound="destructure! on tuples of arity 0,1,2,3 and 16 (with `_` elements and a type annotation), nested tuple/struct/array destructured in two steps; symbolic u32 payloads"
-    #[kani::unwind(18)]
+    #[kani::unwind(7)]
     fn c15_destructure_tuples(s) {
         reset();
         let p: [u32; 4] = [s.u32(), s.u32(), s.u32(), s.u32()];
@@ -1067,7 +1034,7 @@ harness! {
 
 harness! {
     /// kind=bounded tier=quick bound="destructure! on arrays of length 0..=5: all elements, prefix+rest, prefix+rest+suffix, rest only, unnamed `..` (prefix/suffix kept), `_` elements, parenthesised pattern, type annotation, generic element type; symbolic u32 payloads"
-    #[kani::unwind(18)]
+    #[kani::unwind(7)]
     fn c15_destructure_arrays(s) {
         reset();
         let p: [u32; 5] = [s.u32(), s.u32(), s.u32(), s.u32(), s.u32()];
@@ -1158,7 +1125,7 @@ harness! {
 
 harness! {
     /// kind=bounded tier=quick bound="destructure! on a #[repr(packed)] struct with two Drop fields at odd offsets (all fields; `_` field) and on a struct with zero-sized fields (counted ZST destructor, (), PhantomData); symbolic u8/u16/u32 field values"
-    #[kani::unwind(18)]
+    #[kani::unwind(7)]
     fn c15_destructure_packed_zst(s) {
         reset();
         let p: [u32; 2] = [s.u32(), s.u32()];
